@@ -88,6 +88,7 @@ type jcase struct {
 	Lo       int64   `json:"lo"`
 	Hi       int64   `json:"hi"`
 	OwnIndex bool    `json:"own_index"` // the restore target gets a series file + index of its own
+	ViaShard bool    `json:"via_shard"` // the restore target is a tsdb.Shard: Shard.Restore (restore, close, reopen) / Shard.Import
 	// observations
 	Files      []jfile      `json:"impl_files"`
 	Err        string       `json:"impl_err,omitempty"`
@@ -198,6 +199,27 @@ func openEngine(ownIndex, schema bool) (*eng, error) {
 		x.ensureSchema(nil)
 	}
 	return x, nil
+}
+
+// openShardTarget opens an empty tsdb.Shard (its own tsi1 index, the shared series file)
+// as the restore target: Store.RestoreShard/ImportShard are Shard.Restore/Import plus a
+// path computation.
+func openShardTarget() (*tsdb.Shard, string, error) {
+	root, err := os.MkdirTemp("", "verif-c38-s-")
+	if err != nil {
+		return nil, "", err
+	}
+	opt := tsdb.NewEngineOptions()
+	opt.IndexVersion = tsdb.TSI1IndexName
+	opt.Config.WALDir = filepath.Join(root, "wal")
+	opt.CompactionDisabled = true
+	opt.MetricsDisabled = true
+	opt.SeriesIDSets = seriesIDSets([]*tsdb.SeriesIDSet{tsdb.NewSeriesIDSet()})
+	sh := tsdb.NewShard(1, filepath.Join(root, "data", "db0", "rp0", "1"), filepath.Join(root, "wal", "db0", "rp0", "1"), gsfile, opt)
+	if err := sh.Open(context.Background()); err != nil {
+		return nil, root, err
+	}
+	return sh, root, nil
 }
 
 func (e *eng) ensureSchema(ss []int) error {
@@ -578,32 +600,65 @@ func runCase(w *vh.W, c *jcase) {
 	// restore / import into a fresh empty engine (own directory, no schema)
 	c.ReadB = [][][2]int64{}
 	if aerr == nil {
-		b, err := openEngine(c.OwnIndex, false)
-		if err != nil {
-			fmt.Fprintln(os.Stderr, "open engine:", err)
-			os.Exit(3)
-		}
-		var rerr error
-		if p := vh.Guard(func() {
-			if c.Action == "backup" {
-				rerr = b.Restore(bytes.NewReader(buf.Bytes()), "")
-			} else {
-				rerr = b.Import(bytes.NewReader(buf.Bytes()), "")
+		if c.ViaShard {
+			sh, root, err := openShardTarget()
+			if err != nil {
+				fmt.Fprintln(os.Stderr, "open shard:", err)
+				os.Exit(3)
 			}
-		}); p != "" {
-			failure = "panic in restore/import: " + p
-		}
-		c.RestoreErr = errClass(rerr)
-		if rb, err := b.readAll(); err != nil {
-			failure = "read restored: " + err.Error()
+			var rerr error
+			if p := vh.Guard(func() {
+				if c.Action == "backup" {
+					rerr = sh.Restore(context.Background(), bytes.NewReader(buf.Bytes()), "")
+				} else {
+					rerr = sh.Import(bytes.NewReader(buf.Bytes()), "")
+				}
+			}); p != "" {
+				failure = "panic in Shard.Restore/Import: " + p
+			}
+			c.RestoreErr = errClass(rerr)
+			if te, err := sh.Engine(); err != nil {
+				failure = "restored shard has no engine: " + err.Error()
+			} else {
+				b := &eng{Engine: te.(*tsm1.Engine)}
+				if rb, err := b.readAll(); err != nil {
+					failure = "read restored: " + err.Error()
+				} else {
+					c.ReadB = rb
+				}
+				n := sh.SeriesN()
+				c.SeriesB = &n
+			}
+			sh.Close()
+			os.RemoveAll(root)
 		} else {
-			c.ReadB = rb
+			b, err := openEngine(c.OwnIndex, false)
+			if err != nil {
+				fmt.Fprintln(os.Stderr, "open engine:", err)
+				os.Exit(3)
+			}
+			var rerr error
+			if p := vh.Guard(func() {
+				if c.Action == "backup" {
+					rerr = b.Restore(bytes.NewReader(buf.Bytes()), "")
+				} else {
+					rerr = b.Import(bytes.NewReader(buf.Bytes()), "")
+				}
+			}); p != "" {
+				failure = "panic in restore/import: " + p
+			}
+			c.RestoreErr = errClass(rerr)
+			if rb, err := b.readAll(); err != nil {
+				failure = "read restored: " + err.Error()
+			} else {
+				c.ReadB = rb
+			}
+			if c.OwnIndex {
+				n := b.SeriesN()
+				c.SeriesB = &n
+			}
+			b.close()
 		}
-		if c.OwnIndex {
-			n := b.SeriesN()
-			c.SeriesB = &n
-		}
-		b.close()
 	}
 
 	// ---- known-finding shapes, decided from the state before the action and the request ----
@@ -671,12 +726,45 @@ func runCase(w *vh.W, c *jcase) {
 		w.Fail(idx, failure, "")
 	}
 	w.Count("action", c.Action)
+	w.Count("target", map[bool]string{false: "engine", true: "shard"}[c.ViaShard])
 	w.Count("nfiles", fmt.Sprint(len(c.Files)))
 	w.Count("members", fmt.Sprint(len(c.Members)))
 	w.Count("err", c.Err)
 	w.Count("restore_err", c.RestoreErr)
 	w.Count("shape", sig)
 	w.Count("tombstone_files", fmt.Sprint(hadTomb))
+}
+
+// probeTruncated records (evidence only, no verdict) what the two restore entry points
+// return for a backup archive cut in the middle of a TSM member.
+func probeTruncated(w *vh.W) {
+	a, err := openEngine(false, true)
+	if err != nil {
+		return
+	}
+	defer a.close()
+	st := jstep{Op: "write", Points: []jpoint{{0, 0, 1, 1}, {1, 1, 2, 2}}}
+	a.exec(&st)
+	var buf bytes.Buffer
+	if err := a.Backup(&buf, "", time.Time{}); err != nil {
+		return
+	}
+	cut := buf.Bytes()[:512+20] // the tar header and 20 bytes of the TSM body
+	b, err := openEngine(false, false)
+	if err != nil {
+		return
+	}
+	eerr := b.Restore(bytes.NewReader(cut), "")
+	b.close()
+	sh, root, err := openShardTarget()
+	if err != nil {
+		return
+	}
+	serr := sh.Restore(context.Background(), bytes.NewReader(cut), "")
+	sh.Close()
+	os.RemoveAll(root)
+	w.Extra["truncated_archive_engine_restore_err"] = fmt.Sprint(eerr)
+	w.Extra["truncated_archive_shard_restore_err"] = fmt.Sprint(serr)
 }
 
 func anyTomb(fs []jfile) bool {
@@ -840,6 +928,7 @@ func gen(w *vh.W) jcase {
 		c.TombMts = append(c.TombMts, int64(1+r.IntN(5)))
 	}
 	c.OwnIndex = r.IntN(3) == 0
+	c.ViaShard = r.IntN(3) == 0
 	if r.IntN(2) == 0 {
 		c.Action = "backup"
 		c.Since = int64(r.IntN(7))
@@ -884,14 +973,18 @@ func corpus() []jcase {
 		c.Action, c.Lo, c.Hi = "export", lo, hi
 		return c
 	}
+	viaShard := func(c jcase) jcase { c.ViaShard = true; return c }
 	two := []jstep{wr(jpoint{0, 0, 5, 10}, jpoint{1, 1, 3, 30}), snap, wr(jpoint{0, 0, 5, 11}, jpoint{0, 1, 7, 1}), snap, wr(jpoint{1, 0, 2, 12})}
 	// two interleaved files merged by CompactFull(ppb=3): blocks [0..2][3..5][6..8]
 	long := []jstep{run(0, 0, 0, 2, 4, 6, 8), snap, run(0, 0, 1, 3, 5, 7), snap, {Op: "compact", I: 0, N: 2}}
 	return []jcase{
-		bk(0, two...),  // full backup: two files + the cache
-		bk(2, two...),  // incremental: since == mtime of file 0 (strict >)
-		bk(3, two...),  // incremental
-		bk(4, two...),  // since == newest explicit mtime: only the fresh snapshot file
+		bk(0, two...), // full backup: two files + the cache
+		viaShard(bk(0, two...)),
+		viaShard(bk(0, wr(jpoint{0, 0, 5, 7}, jpoint{1, 0, 5, 8}), snap, jstep{Op: "delete", Series: []int{0}, Lo: 0, Hi: 9})),
+		viaShard(ex(3, 5, long...)),
+		bk(2, two...), // incremental: since == mtime of file 0 (strict >)
+		bk(3, two...), // incremental
+		bk(4, two...), // since == newest explicit mtime: only the fresh snapshot file
 		// (a) tombstone not restored: deleted point comes back
 		bk(0, wr(jpoint{0, 0, 5, 7}, jpoint{1, 0, 5, 8}), snap, jstep{Op: "delete", Series: []int{0}, Lo: 0, Hi: 9}),
 		// tombstone present but compacted away before the backup: fine
@@ -918,7 +1011,7 @@ func corpus() []jcase {
 
 func main() {
 	w := vh.New("C38", "From Verif Require Import Base.Prelude Model.C01 Model.C38.", "C38.case", "C38.check")
-	w.Rule = "random histories (4-16 ops) over 2 series x 2 fields x timestamps 0..11: writes (1-6 points, sometimes a long run of one key), snapshots, CompactFull(ppb=3) of contiguous file runs + Replace, series range deletes (tombstone files); then file mtimes are set to ranks 1..5 and either Backup(since rank 0..6; 0 = full) + Restore into a fresh empty engine, or Export(lo,hi in -1..12, or the full domain) + Import into a fresh empty engine; every key is read back from both engines. Non-trivial: >=2 writes, >=1 TSM file and >=1 readable point. Distinct: distinct Gallina terms."
+	w.Rule = "random histories (4-16 ops) over 2 series x 2 fields x timestamps 0..11: writes (1-6 points, sometimes a long run of one key), snapshots, CompactFull(ppb=3) of contiguous file runs + Replace, series range deletes (tombstone files); then file mtimes are set to ranks 1..5 and either Backup(since rank 0..6; 0 = full) + Restore into a fresh empty engine, or Export(lo<=hi in -1..12, or the full domain) + Import into a fresh empty engine; the target is a bare tsm1.Engine (Engine.Restore/Import; 1/3 with a series file + index of its own) or, 1/3 of the cases, a tsdb.Shard (Shard.Restore = restore + close + reopen, Shard.Import — what Store.RestoreShard/ImportShard call); every key is read back from both sides. 20 hand-picked cases first (since == mtime boundaries, tombstones, block-aligned / straddling / disjoint / min=lo&max=hi export ranges, a file overlapping the range with no block in it, an entirely deleted compaction). Non-trivial: >=2 writes, >=1 TSM file and >=1 readable point. Distinct: distinct Gallina terms."
 	openShared()
 	defer closeShared()
 	var rc jcase
@@ -927,6 +1020,7 @@ func main() {
 		w.Finish()
 		return
 	}
+	probeTruncated(w)
 	for _, c := range corpus() {
 		c := c
 		if w.Len() < w.N {
